@@ -225,31 +225,35 @@ Fixpoint to_tree (regs : list ppl) (e : itree) : option tree :=
                  | _, _ => None
                  end
   end.
-Record mach := { mc_heap : heap; mc_regs : list ppl; mc_lastA : option ppl; mc_lastB : option ppl;
+(* a backend object: the combined pipeline it built last (last_processing_pipeline) and the output
+   format it was built for.  convert() rebuilds it on every call; convert_rule() only when there is
+   none *)
+Record mach := { mc_heap : heap; mc_regs : list ppl; mc_lastA : option (ppl * fmt); mc_lastB : option (ppl * fmt);
                  mc_res : option result; mc_fresh : N }.
 Definition mc_last (m : mach) (b : bool) := if b then mc_lastB m else mc_lastA m.
 Definition mc_push (m : mach) (c : N) (hp : heap * outcome ppl) : outcome mach :=
   obind (snd hp) (fun p =>
     Ok {| mc_heap := fst hp; mc_regs := mc_regs m ++ [p]; mc_lastA := mc_lastA m; mc_lastB := mc_lastB m;
           mc_res := mc_res m; mc_fresh := c |}).
-Definition mc_set_last (m : mach) (b : bool) (hp : heap * outcome ppl) : outcome mach :=
+Definition mc_set_last (m : mach) (b : bool) (f : fmt) (hp : heap * outcome ppl) : outcome mach :=
   obind (snd hp) (fun p =>
-    Ok {| mc_heap := fst hp; mc_regs := mc_regs m; mc_lastA := if b then mc_lastA m else Some p;
-          mc_lastB := if b then Some p else mc_lastB m; mc_res := mc_res m; mc_fresh := mc_fresh m |}).
+    Ok {| mc_heap := fst hp; mc_regs := mc_regs m; mc_lastA := if b then mc_lastA m else Some (p, f);
+          mc_lastB := if b then Some (p, f) else mc_lastB m; mc_res := mc_res m; mc_fresh := mc_fresh m |}).
 Definition mc_user (m : mach) (u : option nat) : outcome (option ppl) :=
   match u with
   | None => Ok None
   | Some i => match nth_error (mc_regs m) i with Some p => Ok (Some p) | None => Crash C_Harness end
   end.
+(* convert_rule(rule, f) for every rule + finalize(queries, f) with the pipeline the backend has *)
 Definition mc_run (f : fmt) (rules : list rule) (m : mach) (b : bool) : outcome mach :=
   match mc_last m b with
   | None => Crash C_Harness
-  | Some p => let hr := m_run (mc_heap m) f p rules in
-              obind (snd hr) (fun r =>
-                Ok {| mc_heap := fst hr; mc_regs := mc_regs m; mc_lastA := mc_lastA m; mc_lastB := mc_lastB m;
-                      mc_res := Some r; mc_fresh := mc_fresh m |})
+  | Some pf => let hr := m_run (mc_heap m) f (fst pf) rules in
+               obind (snd hr) (fun r =>
+                 Ok {| mc_heap := fst hr; mc_regs := mc_regs m; mc_lastA := mc_lastA m; mc_lastB := mc_lastB m;
+                       mc_res := Some r; mc_fresh := mc_fresh m |})
   end.
-Definition mstep (f : fmt) (t : list (str * rent ppl)) (bk outf : ppl) (rules : list rule) (m : mach) (o : op) : outcome mach :=
+Definition mstep (t : list (str * rent ppl)) (bk : ppl) (outf : fmt -> ppl) (rules : list rule) (m : mach) (o : op) : outcome mach :=
   match o with
   | OpTree e => match to_tree (mc_regs m) e with
                 | None => Crash C_Harness
@@ -261,45 +265,54 @@ Definition mstep (f : fmt) (t : list (str * rent ppl)) (bk outf : ppl) (rules : 
                | Some (p :: ps) => mc_push m (mc_fresh m) (psum (mc_heap m) (p :: ps))
                | _ => Crash C_Harness
                end
-  | OpInit b u => obind (mc_user m u) (fun up => mc_set_last m b (init (mc_heap m) f bk up outf))
-  | OpRun b => mc_run f rules m b
-  | OpConvert b u => obind (mc_user m u) (fun up =>
-                     obind (mc_set_last m b (init (mc_heap m) f bk up outf)) (fun m' => mc_run f rules m' b))
+  | OpInit b u f => obind (mc_user m u) (fun up => mc_set_last m b f (init (mc_heap m) f bk up (outf f)))
+  | OpRun b f => match mc_last m b with
+                 | Some _ => mc_run f rules m b           (* the pipeline of the earlier initialisation, whatever its format *)
+                 | None => obind (mc_set_last m b f (init (mc_heap m) f bk None (outf f))) (fun m' => mc_run f rules m' b)
+                 end
+  | OpConvert b u f => obind (mc_user m u) (fun up =>
+                       obind (mc_set_last m b f (init (mc_heap m) f bk up (outf f))) (fun m' => mc_run f rules m' b))
   end.
 (* premise of the behaviour theorem at every conversion without re-initialisation so far: the
-   pipeline still owned all its objects (always true right after init_processing_pipeline) *)
+   pipeline still owned all its objects and was built for the requested format (both always true
+   right after init_processing_pipeline) *)
 Definition run_dom (m : mach) (o : op) (prev : bool) : bool :=
   match o with
-  | OpRun b => prev && match mc_last m b with Some p => ownedb (mc_heap m) p | None => true end
+  | OpRun b f => prev && match mc_last m b with
+                         | Some pf => ownedb (mc_heap m) (fst pf) && fmt_eqb f (snd pf)
+                         | None => true
+                         end
   | _ => prev
   end.
-Definition mstep_acc (f : fmt) (t : list (str * rent ppl)) (bk outf : ppl) (rules : list rule)
+Definition mstep_acc (t : list (str * rent ppl)) (bk : ppl) (outf : fmt -> ppl) (rules : list rule)
            (acc : outcome mach * bool) (o : op) : outcome mach * bool :=
   match fst acc with
-  | Ok m => (mstep f t bk outf rules m o, run_dom m o (snd acc))
+  | Ok m => (mstep t bk outf rules m o, run_dom m o (snd acc))
   | _ => acc
   end.
-(* the initial objects: the operand pipelines, then the backend's class-level pipelines *)
+(* the initial objects: the operand pipelines, then the backend's class-level pipelines: its own and
+   one output-format pipeline per format *)
 Fixpoint mk_defs (h : heap) (ds : list pdef) : heap * outcome (list ppl) :=
   match ds with
   | [] => (h, Ok [])
   | d :: ds' => hbind (mk_def h d) (fun h1 p => hbind (mk_defs h1 ds') (fun h2 l => (h2, Ok (p :: l))))
   end.
+Definition by_fmt {A} (x y z : A) (f : fmt) : A := match f with FDefault => x | FTest => y | FState => z end.
 (* result of the last conversion of the history, and whether every conversion so far was inside the
    domain of the behaviour theorem *)
-Definition mexec (f : fmt) (defs : list pdef) (tn : list (str * rent nat)) (bkd outd : pdef) (rules : list rule)
+Definition mexec (defs : list pdef) (tn : list (str * rent nat)) (bkd od ot os : pdef) (rules : list rule)
            (prog : list op) : outcome result * bool :=
-  let hl := mk_defs h_empty (defs ++ [bkd; outd]) in
+  let hl := mk_defs h_empty (defs ++ [bkd; od; ot; os]) in
   match snd hl with
   | Ok l =>
     let n := length defs in
-    match nth_error l n, nth_error l (S n), conv_tab (firstn n l) tn with
-    | Some bk, Some outf, Some t =>
-        let r := fold_left (mstep_acc f t bk outf rules) prog
+    match nth_error l n, nth_error l (1 + n), nth_error l (2 + n), nth_error l (3 + n), conv_tab (firstn n l) tn with
+    | Some bk, Some o1, Some o2, Some o3, Some t =>
+        let r := fold_left (mstep_acc t bk (by_fmt o1 o2 o3) rules) prog
                            (Ok {| mc_heap := fst hl; mc_regs := firstn n l; mc_lastA := None; mc_lastB := None;
                                   mc_res := None; mc_fresh := 0 |}, true) in
         (obind (fst r) (fun m => match mc_res m with Some x => Ok x | None => Crash C_Harness end), snd r)
-    | _, _, _ => (Crash C_Harness, true)
+    | _, _, _, _, _ => (Crash C_Harness, true)
     end
   | SigmaErr t => (SigmaErr t, true)
   | Crash t => (Crash t, true)
